@@ -492,13 +492,10 @@ pub fn scenario(name: &str, params: &Value) -> Scenario {
             let big = params["big"].as_bool().unwrap_or(false);
             Box::new(move |chz, ex| {
                 // choose a target window and a delta so that a length field crosses a VBI boundary
-                let windows: &[usize] = if big {
-                    &[120, 16376, 2097144]
-                } else {
-                    &[120, 16376]
-                };
+                let windows: &[usize] = &[120, 16376, 2097144];
                 let base = windows[chz.choose(windows.len())];
-                let delta = chz.choose(17);
+                // (quick: around the 3-/4-byte boundary only 2097150..=2097154)
+                let delta = if base > 100_000 && !big { 6 + chz.choose(5) } else { chz.choose(17) };
                 let target = base + delta; // desired value of the length field
                 let kind = chz.choose(7);
                 let mut sys = Sys::new("C01", &name, chz);
